@@ -51,6 +51,7 @@ type gen struct {
 	tags    map[string]bool
 	maxSess int
 	removed map[int]bool
+	hasHist bool
 }
 
 func (g *gen) pick(l []string) string { return l[g.r.IntN(len(l))] }
@@ -634,7 +635,7 @@ func (g *gen) opMeta() {
 		return Dict()
 	}
 	pick := g.r.IntN(22)
-	if g.profile == "history" && pick >= 6 && pick <= 8 {
+	if (g.profile == "history" || g.hasHist) && pick >= 6 && pick <= 8 {
 		// several sessions ending in one step leave in scheduler order, and a
 		// history store would record that order
 		pick = 0
@@ -890,7 +891,7 @@ func Generate(profile string, seed uint64, idx int, maxOps, maxSess int) *Scenar
 		feats: map[int]map[string]bool{}, local: map[int]bool{}, req: map[int]int64{}, callees: map[int]bool{}, tags: map[string]bool{}, maxSess: maxSess, removed: map[int]bool{}}
 	cfg := RealmCfg{Strict: g.chance(0.25), Disclose: g.chance(0.6), MetaStrict: g.chance(0.3), Kill: g.chance(0.8), Modify: g.chance(0.7)}
 	histSubs := 0
-	if base == "history" || g.chance(0.15) {
+	if base == "history" || g.chance(0.15) || (realms > 1 && g.chance(0.4)) {
 		n := 1 + g.r.IntN(3)
 		seen := map[string]bool{}
 		for i := 0; i < n; i++ {
@@ -918,6 +919,7 @@ func Generate(profile string, seed uint64, idx int, maxOps, maxSess int) *Scenar
 			cfg.Strict = false
 		}
 	}
+	g.hasHist = len(cfg.Hist) > 0
 	if authz {
 		cfg.LocalAuthz = g.chance(0.6)
 		n := 2 + g.r.IntN(5)
@@ -998,6 +1000,14 @@ func Generate(profile string, seed uint64, idx int, maxOps, maxSess int) *Scenar
 		}
 		if (base == "rpc" || base == "mixed") && g.chance(0.015) {
 			g.tplDuplicateAnswers()
+		}
+		if realms > 1 && g.chance(0.01) {
+			// AddRealm with the URI of a live realm: must be refused without effect
+			live := g.r.IntN(realms)
+			if !g.removed[live] {
+				g.sc.Ops = append(g.sc.Ops, Op{Kind: "addrealm", Realm: live})
+				g.tag("add-existing-realm")
+			}
 		}
 		if realms > 1 && g.chance(0.015) {
 			// remove a realm (never realm 0), later traffic to it is refused;
